@@ -72,7 +72,7 @@ def rand_prop(rng, cnt, depth, nested=False):
     if k == "bool":
         return {"p": "bool", "v": rng.random() < 0.5}
     if k == "int":
-        return {"p": "num", "v": rng.choice([0, 1, -3, 42, 10**15])}
+        return {"p": "num", "v": rng.choice([0, 1, -3, 42, 10**15, 2**53 - 1, 2**53, 2**53 + 1, -2**60, 10**30, -1])}
     if k == "float":
         return {"p": "num", "v": rng.choice([2.0, -0.5, 1e21, 3.25])}
     if k == "str":
@@ -145,7 +145,9 @@ def rand_child(rng, cnt, depth, allow_tf=True):
     return r
 
 
-PROP_NAMES = ["id", "value", "onClick", "class_", "data_x", "x_", "x", "aria_label", "title", "items", "cfg", "render", "for_", "x__"]
+PROP_NAMES = ["id", "value", "onClick", "class_", "data_x", "x_", "x", "aria_label", "title", "items", "cfg", "render", "for_", "x__",
+              # names React itself gives a meaning to: written like any other prop
+              "children", "key", "ref", "className", "htmlFor", "defaultValue"]
 TAG_ATTRS = ["id", "class_", "title", "data_v", "href"]
 
 
